@@ -106,6 +106,12 @@ def vtt_special_documents():
            [(3603 * 1000000, 3604 * 1000000, ["x"])])
     yield (f"WEBVTT\n\n{a} --> {b}\nfirst\n\n01:00:03.000 --> 01:00:04.000\n\nNOTE\nover two lines\n\n01:00:05.000 --> 01:00:06.000\nlast\n",
            [(s, e, ["first"]), (3605 * 1000000, 3606 * 1000000, ["last"])])
+    # a cue that starts at the very beginning of the programme (instant zero is an instant like any other, also under strict
+    # timing checks), and one that starts and ends there
+    yield ("WEBVTT\n\n00:00.000 --> 00:02.000\nfrom the start\n\n00:00:02.000 --> 00:00:04.000\nx\n",
+           [(0, 2 * 1000000, ["from the start"]), (2 * 1000000, 4 * 1000000, ["x"])])
+    yield ("WEBVTT\n\n00:00:00.000 --> 00:00:00.000\nzero length at zero\n\n00:00:02.000 --> 00:00:04.000\nx\n",
+           [(0, 0, ["zero length at zero"]), (2 * 1000000, 4 * 1000000, ["x"])])
 
 
 def microdvd_documents():
@@ -152,9 +158,10 @@ def explore(ctx, thorough):
     F.object_classes = ("Caption", "CaptionList", "CaptionNode", "CaptionSet")
     out = {}
     for name, path, q, docs, attrs in (
-            ("WebVTT", "pycaption/webvtt.py", "WebVTTReader.read", itertools.chain(vtt_documents(thorough), vtt_special_documents()),
+            ("WebVTT", "pycaption/webvtt.py", "WebVTTReader.read", itertools.chain(((d, w, False) for d, w in vtt_documents(thorough)),
+                                                                                      ((d, w, True) for d, w in vtt_special_documents())),
              {"ignore_timing_errors": True, "time_shift_microseconds": 0}),
-            ("MicroDVD", "pycaption/microdvd.py", "MicroDVDReader.read", microdvd_documents(), {})):
+            ("MicroDVD", "pycaption/microdvd.py", "MicroDVDReader.read", ((d, w, False) for d, w in microdvd_documents()), {})):
         fn = ctx.index.get_function(path, q)
         init = fn.cls.find_method("__init__")
         bad = {"cues": [], "times": [], "text": []}
@@ -166,9 +173,9 @@ def explore(ctx, thorough):
                             ({"ignore_timing_errors": False, "time_shift_milliseconds": 5000}, 5000000),
                             ({"ignore_timing_errors": False, "time_shift_milliseconds": 400}, 400000)]
         jobs = []
-        for i_, (doc, want) in enumerate(docs):
+        for i_, (doc, want, every_option) in enumerate(docs):
             jobs.append((doc, want, {}))
-            if len(option_sets) > 1 and i_ % 6 == 0:
+            if len(option_sets) > 1 and (i_ % 6 == 0 or every_option):
                 for opts, shift in option_sets[1:]:
                     jobs.append((doc, [(s_ + shift, e_ + shift, t_) for s_, e_, t_ in want], opts))
         for doc, want, opts in jobs:
